@@ -285,6 +285,9 @@ func TestDrive_C15(t *testing.T) {
 		m15 = 1200
 	}
 	slowRetryListenerCancelled(rng, m15, addExec)
+	// executions submitted under a context that is already done (all entry points, also stacks nothing in which looks at the
+	// cancellation): the asynchronous execution is the synchronous one
+	preCancelled(rng, m15, false, addExec)
 	// 2. the future protocol under concurrent readers
 	for _, entry := range asyncEntries {
 		for _, nr := range []int{1, 2, 5, 16} {
